@@ -233,9 +233,9 @@ def _run(R):
     for ver in T.VERSIONS:
         for p in T.PREFIXES[ver]:
             for part in range(4):
-                shards.append((ver, p, part == 0, R.pick(500, 12000), "%s-%d" % (R.seed, part)))
+                shards.append((ver, p, part == 0, R.pick(500, 60000), "%s-%d" % (R.seed, part)))
     R.pmap("shard_vectors", shards)
-    R.pmap("shard_dialogue", [(vt, am, R.pick(150, 3000), R.seed) for vt in ("2", "3.0", "3.1", "4") for am in (False, True)])
+    R.pmap("shard_dialogue", [(vt, am, R.pick(150, 20000), R.seed) for vt in ("2", "3.0", "3.1", "4") for am in (False, True)])
     for vt in ("2", "3.0", "3.1", "4"):
         for am in ("all", "mandatory"):
             if R.P.strata.get("dialogue:%s:%s" % (vt, am), 0) == 0:
